@@ -154,17 +154,15 @@ theorem loadBlobber_ok {s : State} {r : Req} {L : Loaded} (h : loadBlobber s r =
     simp only [hp] at h
     split at h
     · cases h
-    · split at h
-      · cases h
-      · rename_i hk
-        rw [getSP_eq] at h
-        cases hs : kvGet s.sps (Kind.blobber, r.reqId) with
-        | none => simp [hs] at h
-        | some sp =>
-          simp only [hs] at h
-          injection h with h
-          subst h
-          exact ⟨rfl, rfl, rfl, by simpa using hk, rfl⟩
+    · rename_i hk
+      rw [getSP_eq] at h
+      cases hs : kvGet s.sps (Kind.blobber, r.reqId) with
+      | none => simp [hs] at h
+      | some sp =>
+        simp only [hs] at h
+        injection h with h
+        subst h
+        exact ⟨rfl, rfl, rfl, by simpa using hk, rfl⟩
 
 theorem loadValidator_ok {cfg : Cfg} {s : State} {r : Req} {L : Loaded} (h : loadValidator cfg s r = .ok L) :
     L.pid = r.reqId ∧ kvGet s.provs r.reqId = some L.p ∧ L.st.provs = s.provs ∧ L.st.sps = s.sps ∧
@@ -265,7 +263,7 @@ theorem provKill_already {load : State → Req → Except Err Loaded} {refresh :
 theorem provShutDown_done {load : State → Req → Except Err Loaded} {refresh : Option (State → Req → Except Err State)}
     {owner : Id} {slash : F64} {key : SaveKey} {s : State} {r : Req} {st : State} {pid : Id} {p : Prov} {sp : SP}
     (h : provShutDown load refresh owner slash key s r = .done st pid p sp) :
-    ∃ L, load s r = .ok L ∧ (owner = r.caller ∨ sp.wallet = some r.caller) ∧ L.p.killed = false ∧ L.p.shutDown = false ∧
+    ∃ L, load s r = .ok L ∧ (owner = r.caller ∨ L.sp.wallet = some r.caller) ∧ L.p.killed = false ∧ L.p.shutDown = false ∧
       spKill L.sp slash = .ok sp ∧ p = { L.p with shutDown := true } ∧ pid = L.pid ∧
       st = putSP L.st L.p.kind (key.eval r L.pid) sp := by
   unfold provShutDown at h
@@ -274,28 +272,29 @@ theorem provShutDown_done {load : State → Req → Except Err Loaded} {refresh 
   | ok L =>
     simp only [hl] at h
     split at h
-    · cases refresh with
-      | none => cases h
-      | some f =>
-        simp only at h
-        cases hf : f L.st r <;> simp [hf] at h
-    · rename_i hlive
-      cases hk : spKill L.sp slash with
-      | error e => simp [hk] at h
-      | ok sp' =>
-        simp only [hk] at h
-        split at h
-        · rename_i ha
+    · cases h
+    · rename_i hau
+      split at h
+      · cases refresh with
+        | none => cases h
+        | some f =>
+          simp only at h
+          cases hf : f L.st r <;> simp [hf] at h
+      · rename_i hlive
+        cases hk : spKill L.sp slash with
+        | error e => simp [hk] at h
+        | ok sp' =>
+          simp only [hk] at h
           injection h with h1 h2 h3 h4
           subst h1 h2 h3 h4
           simp only [Bool.or_eq_true, not_or, Bool.not_eq_true] at hlive
-          exact ⟨L, rfl, ha, hlive.1, hlive.2, hk, rfl, rfl, rfl⟩
-        · cases h
+          exact ⟨L, rfl, Classical.not_not.mp hau, hlive.1, hlive.2, hk, rfl, rfl, rfl⟩
 
 theorem provShutDown_already {load : State → Req → Except Err Loaded} {refresh : Option (State → Req → Except Err State)}
     {owner : Id} {slash : F64} {key : SaveKey} {s : State} {r : Req} {st : State}
     (h : provShutDown load refresh owner slash key s r = .already st) :
-    ∃ L, load s r = .ok L ∧ (L.p.killed = true ∨ L.p.shutDown = true) ∧
+    ∃ L, load s r = .ok L ∧ (owner = r.caller ∨ L.sp.wallet = some r.caller) ∧
+      (L.p.killed = true ∨ L.p.shutDown = true) ∧
       ((refresh = none ∧ st = L.st) ∨ ∃ f, refresh = some f ∧ f L.st r = .ok st) := by
   unfold provShutDown at h
   cases hl : load s r with
@@ -303,26 +302,26 @@ theorem provShutDown_already {load : State → Req → Except Err Loaded} {refre
   | ok L =>
     simp only [hl] at h
     split at h
-    · rename_i hdead
-      simp only [Bool.or_eq_true] at hdead
-      cases refresh with
-      | none =>
-        simp only at h
-        injection h with h
-        exact ⟨L, rfl, hdead, Or.inl ⟨rfl, h.symm⟩⟩
-      | some f =>
-        simp only at h
-        cases hf : f L.st r with
-        | error e => simp [hf] at h
-        | ok st' =>
-          simp only [hf] at h
+    · cases h
+    · rename_i hau
+      have hau' := Classical.not_not.mp hau
+      split at h
+      · rename_i hdead
+        simp only [Bool.or_eq_true] at hdead
+        cases refresh with
+        | none =>
+          simp only at h
           injection h with h
-          exact ⟨L, rfl, hdead, Or.inr ⟨f, rfl, by rw [hf, h]⟩⟩
-    · cases hk : spKill L.sp slash with
-      | error e => simp [hk] at h
-      | ok sp' =>
-        simp only [hk] at h
-        split at h <;> cases h
+          exact ⟨L, rfl, hau', hdead, Or.inl ⟨rfl, h.symm⟩⟩
+        | some f =>
+          simp only at h
+          cases hf : f L.st r with
+          | error e => simp [hf] at h
+          | ok st' =>
+            simp only [hf] at h
+            injection h with h
+            exact ⟨L, rfl, hau', hdead, Or.inr ⟨f, rfl, by rw [hf, h]⟩⟩
+      · cases hk : spKill L.sp slash <;> simp [hk] at h
 
 /-! ## slashing -/
 
@@ -509,7 +508,7 @@ theorem shutdownBlobberK_frame {key : SaveKey} {cfg : Cfg} {s s' : State} {r : R
   | already st =>
     simp only [hr] at h
     injection h with h; subst h
-    obtain ⟨L, hl, _, hre⟩ := provShutDown_already hr
+    obtain ⟨L, hl, _, _, hre⟩ := provShutDown_already hr
     obtain ⟨hpid, hst, hp, hk, _⟩ := loadBlobber_ok hl
     rcases hre with ⟨hn, _⟩ | ⟨f, hf, hfr⟩
     · cases hn
@@ -638,7 +637,7 @@ theorem shutdownBlobberK_flagged {key : SaveKey} {cfg : Cfg} {s s' : State} {r :
   | already st =>
     simp only [hr] at h
     injection h with h; subst h
-    obtain ⟨L, hl, _, hre⟩ := provShutDown_already hr
+    obtain ⟨L, hl, _, _, hre⟩ := provShutDown_already hr
     obtain ⟨_, hst, _, _, _⟩ := loadBlobber_ok hl
     rcases hre with ⟨hn, _⟩ | ⟨f, hf', hfr⟩
     · cases hn
@@ -684,24 +683,19 @@ theorem provKill_unauth {load : State → Req → Except Err Loaded} {refresh : 
   | error e => exact ⟨e, rfl⟩
   | ok L => exact ⟨.unauthorized, by simp [h]⟩
 
-/-- `provider.ShutDown` by a caller who is neither the owner nor the loaded pool's delegate wallet: an error, unless
-the provider is already flagged (then the already-branch ran, before any authorisation). -/
+/-- `provider.ShutDown` by a caller who is neither the owner nor the loaded pool's delegate wallet: always an error —
+whatever state the provider is in (the authorisation precedes the already-shut-down branch). -/
 theorem provShutDown_unauth {load : State → Req → Except Err Loaded} {refresh : Option (State → Req → Except Err State)}
     {owner : Id} {slash : F64} {key : SaveKey} {s : State} {r : Req} (h : owner ≠ r.caller)
-    (hw : ∀ L, load s r = .ok L → L.sp.wallet ≠ some r.caller ∧ L.p.killed = false ∧ L.p.shutDown = false) :
+    (hw : ∀ L, load s r = .ok L → L.sp.wallet ≠ some r.caller) :
     ∃ e, provShutDown load refresh owner slash key s r = .err e := by
   unfold provShutDown
   cases hl : load s r with
   | error e => exact ⟨e, rfl⟩
   | ok L =>
-    obtain ⟨h1, h2, h3⟩ := hw L hl
-    simp only [h2, h3, Bool.or_self, Bool.false_eq_true, ↓reduceIte]
-    cases hk : spKill L.sp slash with
-    | error e => exact ⟨e, rfl⟩
-    | ok sp' =>
-      have hw' : sp'.wallet = L.sp.wallet := (spKill_spec hk).2.2.1
-      refine ⟨.unauthorized, ?_⟩
-      simp only [hw', h, h1, or_self, ↓reduceIte]
+    refine ⟨.unauthorized, ?_⟩
+    have h1 := hw L hl
+    simp only [h, h1, or_self, not_false_eq_true, ↓reduceIte]
 
 /-! ## slashing never adds stake -/
 
